@@ -29,6 +29,15 @@ def lower (n : Name) : Name := n.map toLower
 /-- bytes of an ASCII string literal (used for keywords in the models and in the driver) -/
 def bytes (s : String) : Name := s.toUTF8.toList.map (·.toNat)
 
+/-- `n!"text"` : the bytes of an ASCII literal as an explicit list literal (kernel-reducible) -/
+syntax:max "n!" str : term
+open Lean in
+macro_rules
+  | `(n! $s:str) => do
+    let bs := s.getString.toUTF8.toList.map (·.toNat)
+    let lits := bs.map (fun b => Syntax.mkNumLit (toString b))
+    `(([$(lits.toArray),*] : List Nat))
+
 /-- keyword spellings as literal byte lists (kernel-reducible, unlike `bytes "…"`) -/
 def kwFalse : Name := [102, 97, 108, 115, 101]
 def kwTrue : Name := [116, 114, 117, 101]
